@@ -66,6 +66,14 @@ Definition is_some {A} (x : option A) : bool := match x with Some _ => true | No
 Definition check_inputlookup_guard (cases : list (il_opts * (list N * bool))) : list nat :=
   bad_indices (fun c => Bool.eqb (is_some (inputlookup_open [] (fst c) (il_start (fst c)) (fst (snd c)))) (snd (snd c))) cases O.
 
+(* delete-index: (list L, pattern, [(name, was its directory removed)]) for names whose
+   directory existed before the request *)
+Definition check_delete (cases : list (list (list N) * (list N * list (list N * bool)))) : list nat :=
+  bad_indices (fun c =>
+    let L := fst c in let pat := fst (snd c) in
+    let removed := filter (fun n => index_ok n && mem n L) (expand_simple pat L) in
+    forallb (fun o => Bool.eqb (mem (fst o) removed) (snd o)) (snd (snd c))) cases O.
+
 (* IsSafePathComponent: (name, was it accepted by the site's validator) *)
 Definition check_safe (cases : list (list N * bool)) : list nat :=
   bad_indices (fun c => Bool.eqb (safe_component (fst c)) (snd c)) cases O.
